@@ -12,7 +12,7 @@ PARTIAL = [
 
 def correspond(rep, tier, seed):
     rep.partial.extend(PARTIAL)
-    scs, failing = sendflow.correspond_sendflow(rep, tier, seed + 1, profiles=("flow", "bp", "limits", "mixed", "reset"))
+    scs, failing = sendflow.correspond_sendflow(rep, tier, seed + 1, profiles=("flow", "starve", "bp", "limits", "starve", "mixed", "reset"))
     n_viol = sendflow.oracle_sendflow(rep, scs, "C16")
     n_viol += sendflow.capacity_usable_oracle(rep, scs)
     if failing and n_viol == 0:
@@ -23,7 +23,7 @@ def correspond(rep, tier, seed):
 
 def search(rep, tier, seed, reason=""):
     for k in range(4 if tier == "quick" else 12):
-        for prof in ("flow", "limits"):
+        for prof in ("starve", "flow", "limits"):
             scs, _ = sendflow.gen_scenarios(seed * 15485863 + k * 31 + len(prof), 150, 140, prof, snap=True)
             before = len(rep.violations)
             n = sendflow.oracle_sendflow(rep, scs, "C16") + sendflow.capacity_usable_oracle(rep, scs)
